@@ -84,6 +84,26 @@ SUMMARY = {
  "C18-r4": "SignCryptDecryptionKey::decrypt uses the Basic tag for MessageAugmentation ciphertexts",
  "C19-r4": "HKDF hash-to-scalar retries while `s < Scalar::ONE`: the ordering of scalars differs between the backends, about one derivation in 2^31 diverges (witness seed found by a 49 s brute-force search)",
  "C20-r4": "time-lock seed 'hedged' with the identifier by assignment instead of xor: identifiers of 32+ bytes (any identifier under MessageAugmentation) make sealing deterministic",
+ "C01-r5": "pk == generator fast path in core_verify compares with the NEGATED generator: honest signatures under sk = r-1 are rejected",
+ "C02-r5": "empty-message shortcut in Signature::verify (MessageAugmentation) tests 'all bytes zero' instead of 'empty': all-zero messages verify as the empty message",
+ "C03-r5": "aggregation skips identity signatures with take_while instead of filter: everything after an identity entry is dropped",
+ "C04-r5": "ElGamal verify_proof tests c2 twice and c1 never: a purpose-built proof with c1 = O (blinder 0, consistent transcript) verifies",
+ "C05-r5": "proof-of-knowledge verify no longer refuses the zero challenge: with y = 0 the tag-dependent term vanishes and a relabelled proof verifies",
+ "C06-r5": "small-buffer pk||msg in augmentation aggregate_verify stores the length in a u8: pk_len + msg_len == 256 hashes the empty string",
+ "C07-r5": "MultiSignature::verify sends Basic through the ProofOfPossession fast-aggregate path (wrong tag): Basic multi-signatures never verify",
+ "C08-r5": "two-share fast path in PublicKey::from_shares takes |x_b - x_a| on u8: descending identifier order returns -pk",
+ "C09-r5": "zero-key guard in SecretKey::proof_of_possession skips byte 0: keys k * 2^248 get no proof",
+ "C10-r5": "early deadline check `timestamp + timeout` with plain addition: overflows (panic) in builds with overflow checks for timestamps near u64::MAX",
+ "C11-r5": "signcryption key stream keyed on the compressed point without its first byte: P and -P give the same stream, the negated secret key decrypts (and the wire format changes)",
+ "C12-r5": "SignCryptDecryptionKey::from_shares re-implements Lagrange with i64 products: overflow once the product of identifiers passes 2^63 (nine or more high identifiers)",
+ "C13-r5": "`overhead + len <= plaintext.len()` instead of the subtraction: a crafted length prefix near usize::MAX panics instead of yielding nothing",
+ "C14-r5": "short-plaintext fast path in seal_scalar never reads bit 63: plaintexts in [2^63, 2^64) are encrypted as m - 2^63",
+ "C15-r5": "serde helper emits arrays longer than 64 bytes through serialize_bytes: 97-byte share arrays gain a length byte in the binary codec and come back shifted",
+ "C16-r5": "identity fast path in the PublicKey / ProofOfPossession byte decoders looks only at the top two flag bits: c1..ff followed by zeros decodes to the identity",
+ "C17-r5": "sorted-neighbour duplicate check in Basic aggregate_verify indexes order[0]: an empty list panics",
+ "C18-r5": "fields of the Basic variant of ProofOfKnowledge declared as {v, u}: the positional binary codec swaps commitment and response, pinned Basic proofs no longer verify",
+ "C19-r5": "duplicate-pair refusal in core_aggregate_verify keyed on the Display string of the point: affine in blst, projective in the pure-Rust backend, so the backends disagree when one copy of the key was decoded from bytes",
+ "C20-r5": "ProofCommitmentChallenge::new draws from a per-thread generator cloned from one process-wide master: the i-th challenge is the same on every thread",
 }
 
 def main():
